@@ -255,6 +255,7 @@ FIN_INSTANCES = {
     "SingleDiskMove": {"cls": "SingleDiskMove"},
     "None": {"cls": "None"},
     "TwoLevel": {"cls": "TwoLevel", "b": 1, "storage": "RAM", "trajectory": "maximum"},
+    "TwoLevel2": {"cls": "TwoLevel", "period": 2, "b": 1, "storage": "DISK", "trajectory": "revolve"},
     "Multistage": {"cls": "Multistage", "n": 4, "ram": 1, "disk": 1, "trajectory": "maximum"},
     "Mixed": {"cls": "Mixed", "n": 4, "s": 2, "storage": "DISK"},
     "HRevolve": {"cls": "HRevolve", "n": 4, "ram": 1, "disk": 1, "uf": 1, "ub": 1, "wd": 2, "rd": 2},
